@@ -46,6 +46,10 @@ CHECKS = {
    text="For the 5 built-in unit sets and 12 generated definitions (multipliers over {2,10,60,1000}, names that are prefixes of each other, names with regexp metacharacters): every integer in [0,200000], powers of ten, multiplier boundaries and the 63-bit edge formatted (short and long) and parsed back exactly; floats on two grids within tolerance; every well-formed string of 1-3 descending components over a count alphabet in 4 name/spacing variants must parse to the sum; near misses and 64-bit overflows must be errors.",
    note="Trusted: the reference sum/overflow computation in harness/c16; ambiguous strings (bare numbers, decimal counts, negative quantities) are outside the alphabet.",
    technique="exhaustive enumeration of a bounded input space (integers, float grids, component strings) against a reference model", design="DESIGN.md §7 C16"),
+ "C17": dict(level="exploration", engine="U",
+   text="21 nested skeletons plus every list/map/object/scope of U_2 x 2 valid inputs x every leaf, key, list, map and object of the input corrupted one at a time with each applicable corruption (3 wrong-type variants, below min, above max, pattern miss, not in enum, bad key, size bounds, undeclared key, missing required, unknown discriminator), for Unserialize on raw trees and Validate on native values; every rejection must be a ConstraintError whose path (decoration stripped) equals the path of the corrupted element, computed by the corruption generator.",
+   note="Trusted: the corruption generator (harness/ukit/corrupt.go) which knows the element's path by construction; undeclared keys / unknown discriminators may be reported at the enclosing object or at the key.",
+   technique="exhaustive single-fault enumeration over every position of bounded inputs with a by-construction path oracle", design="DESIGN.md §7 C17"),
  "C18": dict(level="exploration", engine="U",
    text="The full matrix of handler signatures built with reflect.MakeFunc (0-2 parameters over 7 native types, 3 over 3; 10 result shapes incl. a non-error type named 'error') x declarations (matching / single-position mismatch / shorter / longer inputs; output nil or one of 7; outputsError) for both constructors is compared with a reference acceptance predicate; every accepted function is called with 0..4 arguments and with an error-returning handler, checking the returned value, function-reported vs call-shape errors and 'error not panic' on wrong arity.",
    note="Trusted: the reference predicate in harness/c18 (type identity with the schemas' reflected types; error = the predeclared interface).",
